@@ -444,8 +444,120 @@ class MergeFn(Fn):
         return self
 
 
+RECS = {"IR1": [("A", INT), ("B", STR)], "IBox": [("Val", None), ("Tag", STR)]}
+
+
+class FldFn(Fn):
+    """directed family: field accesses on parameters whose record type becomes known through OTHER statements (a record literal in
+    one slice literal with the parameter, possibly through merged parameters), the statements in random order - the order in which the
+    information arrives must not matter.  Accessed values are used with a concrete type (v + 1), which determines the type argument
+    of a generic record through the field."""
+
+    def build(self):
+        rng = self.rng
+        n = rng.randint(2, 4)
+        self.params = ["a%d" % i for i in range(n)]
+        self.ptypes = []
+        for p in self.params:
+            t = ["var", "p_" + p]
+            self.env[p] = t
+            self.ptypes.append(t)
+        stm = []          # (text, ast stmt, result part or None)
+        parts = []
+        rec = rng.choice(["IR1", "IBox", "IBox"])
+        holders = rng.sample(self.params, rng.randint(1, min(2, n)))      # parameters that are records (or slices of records)
+        others = [p for p in self.params if p not in holders]
+        for h in holders:
+            as_slice = rng.random() < 0.4
+            # the access
+            v = self.fresh("v")[1]
+            r = self.fresh()
+            fldname = "A" if rec == "IR1" else "Val"
+            if as_slice:
+                e = self.fresh()
+                self.eq(self.env[h], sl(e))
+                if rng.random() < 0.5:
+                    stm.append(("let %s = slice.Map _.%s %s" % (v, fldname, h), ["let", v, call("slice.Map", ["lam", "y0", ["fld", V("y0"), fldname]], V(h))]))
+                else:
+                    stm.append(("let %s = slice.Map (fun y0 -> y0.%s) %s" % (v, fldname, h), ["let", v, call("slice.Map", ["lam", "y0", ["fld", V("y0"), fldname]], V(h))]))
+                ty, rr = self.fresh(), self.fresh()
+                # slice.Map : (e1 -> r1) -> []e1 -> []r1 ; lambda: ty -> r ; deferred: ty.F = r
+                e1, r1 = self.fresh(), self.fresh()
+                self.eqs.append(["fld", ty, fldname, r])
+                self.eq(fn([ty], r), fn([e1], r1))
+                self.eq(self.env[h], sl(e1))
+                tv = sl(r1)
+                elemt = e
+            else:
+                stm.append(("let %s = %s.%s" % (v, h, fldname), ["let", v, ["fld", V(h), fldname]]))
+                self.eqs.append(["fld", self.env[h], fldname, r])
+                tv = r
+                elemt = self.env[h]
+            parts.append((v, tv, V(v)))
+            # a use of the accessed value with a concrete type (only for the scalar access of an int field)
+            if not as_slice and rng.random() < 0.7:
+                w = self.fresh("v")[1]
+                self.eq(tv, INT)
+                stm.append(("let %s = %s + 1" % (w, v), ["let", w, call("int+", V(v), LIT["int"])], ("after", v)))
+                parts.append((w, tv, V(w)))
+            # the witness: a record literal in one slice literal with the holder (or appended to the slice)
+            l = self.fresh("v")[1]
+            if rec == "IR1":
+                lit, tlit, xlit = '{A=1; B="s"}', ["named", "IR1", []], call("{IR1}", LIT["int"], LIT["str"])
+            else:
+                if others and rng.random() < 0.6:
+                    q = rng.choice(others)
+                    if rng.random() < 0.5:
+                        lit, tlit, xlit = '{Val=%s; Tag="t"}' % q, ["named", "IBox", [self.env[q]]], call("{IBox}", V(q), LIT["str"])
+                    else:
+                        lit, tlit, xlit = "iwrap %s" % q, ["named", "IBox", [self.env[q]]], call("iwrap", V(q))
+                else:
+                    lit, tlit, xlit = '{Val=2; Tag="t"}', ["named", "IBox", [INT]], call("{IBox}", LIT["int"], LIT["str"])
+            if as_slice:
+                stm.append(("let %s = slice.Append %s [%s]" % (l, h, lit), ["let", l, call("slice.Append", V(h), ["slice", [xlit]])]))
+                e2 = self.fresh()
+                self.eq(self.env[h], sl(e2))
+                self.eq(sl(tlit), sl(e2))
+                parts.append((l, sl(e2), V(l)))
+            else:
+                stm.append(("let %s = [%s; %s]" % (l, h, lit), ["let", l, ["slice", [V(h), xlit]]]))
+                self.eq(self.env[h], tlit)
+                parts.append((l, sl(self.env[h]), V(l)))
+        # merges between holders / others
+        for _ in range(rng.randint(0, 2)):
+            x, y = rng.sample(self.params, 2)
+            if (x in holders) != (y in holders):
+                continue
+            m = self.fresh("v")[1]
+            self.eq(self.env[x], self.env[y])
+            stm.append(("let %s = [%s; %s]" % (m, x, y), ["let", m, ["slice", [V(x), V(y)]]]))
+            parts.append((m, sl(self.env[x]), V(m)))
+        # random order, but a use comes after the definition of what it uses
+        order = list(range(len(stm)))
+        rng.shuffle(order)
+        placed, lines, defined = [], [], set()
+        pending = [stm[i] for i in order]
+        while pending:
+            for it in pending:
+                dep = it[2][1] if len(it) > 2 else None
+                if dep is None or dep in defined:
+                    lines.append(it[0])
+                    self.stmts.append(it[1])
+                    defined.add(it[1][1])
+                    pending.remove(it)
+                    break
+        rng.shuffle(parts)
+        while len(parts) > 1:
+            (a, ta, xa), (b, tb, xb) = parts.pop(), parts.pop()
+            parts.append(("(%s, %s)" % (b, a), tup(tb, ta), ["tuple", [xb, xa]]))
+        self.body = lines + [parts[0][0]]
+        self.res = parts[0][1]
+        self.fin = parts[0][2]
+        return self
+
+
 def generate(rng, n):
-    return [(MergeFn(rng, i) if i % 5 == 4 else Fn(rng, i)).build() for i in range(n)]
+    return [(MergeFn(rng, i) if i % 5 == 4 else FldFn(rng, i) if i % 5 == 3 else Fn(rng, i)).build() for i in range(n)]
 
 
 # ------------------------------------------------------------------------------------------ abstract syntax -> Folang text
@@ -473,6 +585,8 @@ def render_ast(e):
         return "[" + "; ".join(render_ast(x) for x in e[1]) + "]"
     if k == "lam":
         return "fun %s -> %s" % (e[1], render_ast(e[2]))
+    if k == "fld":
+        return "%s.%s" % (render_ast(e[1]), e[2])
     raise ValueError(k)
 
 
